@@ -82,7 +82,6 @@ Definition refusal (g : geom) (e : env) (k : akind) (len b : Z) : err :=
          else if e_connected e then BackPressured else NotConnected
   end.
 
-Definition unchanged (p c : obs) : bool := dump_eqb (o_dump p) (o_dump c) && out_eqb (o_pos p) (o_pos c).
 
 Definition active (d : dump) : Z := d_count d mod 3.
 Definition tail_off (d : dump) : Z := d_tail d (active d) mod two32.
@@ -120,8 +119,14 @@ Definition appended_words (p c : dump) (off req : Z) : bool :=
   words_eqb (d_part c ((a + 1) mod 3)) [] &&
   words_eqb (d_part c ((a + 2) mod 3)) [].
 
-(* one offer / claim / bulk offer of len bytes: p = observation before, c = observation after *)
-Definition holds_append (g : geom) (e : env) (k : akind) (len : Z) (p c : obs) : bool :=
+(* count, tails and position as before *)
+Definition same_meta_obs (p c : obs) : bool :=
+  (d_count (o_dump p) =? d_count (o_dump c)) && list_eqb Z.eqb (snd (fst (o_dump p))) (snd (fst (o_dump c)))
+  && out_eqb (o_pos p) (o_pos c).
+
+(* one offer / claim / bulk offer of len bytes: p = observation before, c = observation after.
+   flow_append: results, positions, term count and tail counters; words_append: the bytes of the three partitions *)
+Definition flow_append (g : geom) (e : env) (k : akind) (len : Z) (p c : obs) : bool :=
   let req := required g len in
   let dp := o_dump p in
   let dc := o_dump c in
@@ -132,13 +137,12 @@ Definition holds_append (g : geom) (e : env) (k : akind) (len : Z) (p c : obs) :
       negb (e_closed e) && negb (too_long g k len) &&
       match o_pos p with
       | Ok b => (b <? e_limit e) && (np =? b + req) && (np <=? g_maxpos g) && out_eqb (o_pos c) (Ok np)
-                && (pos_off g dp b + req <=? g_tlen g)
-                && tails_advanced dp dc (pos_off g dp b) req && appended_words dp dc (pos_off g dp b) req
+                && (pos_off g dp b + req <=? g_tlen g) && tails_advanced dp dc (pos_off g dp b) req
       | _ => false
       end
       && (d_count dc =? d_count dp)
   | Err BackPressured | Err NotConnected | Err Closed | Err TooLong =>
-      unchanged p c &&
+      same_meta_obs p c &&
       match o_res c with
       | Err Closed => e_closed e
       | Err TooLong =>
@@ -156,46 +160,58 @@ Definition holds_append (g : geom) (e : env) (k : akind) (len : Z) (p c : obs) :
       negb (e_closed e) &&
       match o_pos p with
       | Ok b =>
-          if e_limit e <=? b then unchanged p c && err_eqb MaxPositionExceeded (refusal g e k len b)
+          if e_limit e <=? b then same_meta_obs p c && err_eqb MaxPositionExceeded (refusal g e k len b)
           else
             (* below the limit, in the very last term, and the message does not fit into what is left of it (or the
-               unpublished tail already lies beyond the term): a padding frame when the tail was still inside the term,
-               no rotation; the tail counter is bumped by (shared) or re-stored with (exclusive) the bytes asked for, or
-               nothing changes at all; the position stays or stops at the end of the position space *)
+               unpublished tail already lies beyond the term): no rotation; the tail counter is bumped by (shared) or
+               re-stored with (exclusive) the bytes asked for, or nothing changes at all; the position stays or stops
+               at the end of the position space *)
             let off_pos := pos_off g dp b in
             (d_count dp =? two31 - 1) && negb (too_long g k len) &&
-            (unchanged p c && (g_tlen g <? tail_off dp)
+            (same_meta_obs p c && (g_tlen g <? tail_off dp)
              || (g_tlen g <? off_pos + req) && (d_count dc =? d_count dp)
                 && ((d_tail dc (active dp) =? d_tail dp (active dp) + req)
                     || (d_tail dc (active dp) =? d_tail dp (active dp) - tail_off dp + off_pos + req))
                 && (d_tail dc ((active dp + 1) mod 3) =? d_tail dp ((active dp + 1) mod 3))
                 && (d_tail dc ((active dp + 2) mod 3) =? d_tail dp ((active dp + 2) mod 3))
-                && tripped_words g dp dc
                 && (out_eqb (o_pos c) (Ok (g_maxpos g)) || out_eqb (o_pos c) (o_pos p)))
       | _ => false
       end
   | Err AdminAction =>
-      (* end of term: one padding frame, one rotation *)
+      (* end of term: one rotation *)
       negb (e_closed e) && negb (too_long g k len) &&
       match o_pos p with
-      | Ok b => (b <? e_limit e) && out_eqb (o_pos c) (Ok ((d_count dp + 1) * g_tlen g))
+      | Ok b => (b <? e_limit e) && out_eqb (o_pos c) (Ok ((d_count dp + 1) * g_tlen g)) && (pos_off g dp b =? tail_off dp)
       | _ => false
       end
       && (g_tlen g <? tail_off dp + req) && (d_count dc =? d_count dp + 1) && (d_count dp <? two31 - 1)
       && (d_tail dc (active dp) =? d_tail dp (active dp) + req)
-      && match o_pos p with Ok b => pos_off g dp b =? tail_off dp | _ => false end
       && (d_tail dc ((active dp + 1) mod 3) =? wrap32 (tail_tid dp + 1) * two32)
       && (d_tail dc ((active dp + 2) mod 3) =? d_tail dp ((active dp + 2) mod 3))
-      && tripped_words g dp dc
   | _ => false
   end
   &&
-  (* whatever happened, a position below the limit was required for any change, and positions stay in range *)
+  (* positions never go back and stay inside the position space *)
   match o_pos p, o_pos c with
   | Ok b, Ok q => (b <=? q) && (q <=? g_maxpos g)
   | Err Closed, Err Closed => e_closed e
   | _, _ => false
   end.
+
+Definition words_append (g : geom) (k : akind) (len : Z) (p c : obs) : bool :=
+  let req := required g len in
+  let dp := o_dump p in
+  let dc := o_dump c in
+  match o_res c with
+  | Ok _ => match o_pos p with Ok b => appended_words dp dc (pos_off g dp b) req | _ => false end
+  | Err AdminAction => tripped_words g dp dc          (* exactly one padding frame *)
+  | Err MaxPositionExceeded =>
+      if list_eqb Z.eqb (snd (fst dp)) (snd (fst dc)) then no_words dc else tripped_words g dp dc
+  | _ => no_words dc                                  (* a refusal writes nothing *)
+  end.
+
+Definition holds_append (g : geom) (e : env) (k : akind) (len : Z) (p c : obs) : bool :=
+  flow_append g e k len p c && words_append g k len p c.
 
 (* operations that are not offers: the log is not touched (Clean: only the next partition, which becomes empty;
    Commit / Abort: only words of the partition that holds the claim, no tail, no count) *)
@@ -203,7 +219,7 @@ Definition holds_other (g : geom) (e : env) (o : oop) (p c : obs) : bool :=
   let dp := o_dump p in
   let dc := o_dump c in
   match o with
-  | OLimit _ | OConn _ => unchanged p c && out_eqb (o_res c) (Ok 0)
+  | OLimit _ | OConn _ => dump_eqb dp dc && out_eqb (o_pos p) (o_pos c) && out_eqb (o_res c) (Ok 0)
   | OClose => dump_eqb dp dc && is_err (o_pos c) Closed
   | OClean =>
       (d_count dc =? d_count dp) && list_eqb Z.eqb (snd (fst dp)) (snd (fst dc)) && out_eqb (o_pos p) (o_pos c)
